@@ -63,6 +63,7 @@ struct World {
   std::unique_ptr<M> m[2];
   std::unique_ptr<MV> mv[2];
   std::unique_ptr<trompeloeil::sequence> seq[NSEQ];
+  std::vector<std::unique_ptr<trompeloeil::sequence>> parked_seq;  // moved-from sequence objects, kept alive
   std::unique_ptr<WObj> w[NWAT];
   E e[NSLOT];
   Op eop[NSLOT];           // the operation that created the occupant of each slot
